@@ -123,6 +123,25 @@ Finish ==
   /\ UNCHANGED <<inst, tr, cr, k, needs, groupCtl, starTrt, starCtl>>
 Next == Start \/ MatchIter \/ AugmentIter \/ Finish
 Spec == Init /\ [][Next]_vars /\ WF_vars(Next)
+
+\* ---------------------------------------------------------------- staged choice of the instance (simulation mode)
+\* see MMImplX.tla: the eligibility class is picked geo by geo, then the parameters; afterwards the behaviour is Spec's.
+PickName(g) == "pick" \o ToString(g)
+InitStaged == /\ elig = [g \in Geos |-> "absent"]
+              /\ trIn = (CHOOSE x \in TRs : TRUE) /\ crIn = (CHOOSE x \in CRs : TRUE) /\ gtol = (CHOOSE x \in GTols : TRUE)
+              /\ hasBudget = (CHOOSE x \in Budgets : TRUE) /\ rankFam = (CHOOSE x \in RankFams : TRUE)
+              /\ tr = trIn /\ cr = crIn
+              /\ pc = PickName(1) /\ k = 0 /\ needs = FALSE /\ groupCtl = {} /\ starTrt = <<>> /\ starCtl = <<>> /\ result = {}
+Pick == \E g \in Geos : /\ pc = PickName(g)
+                        /\ \E cl \in Classes : elig' = [elig EXCEPT ![g] = cl]
+                        /\ pc' = IF g = N THEN "params" ELSE PickName(g + 1)
+                        /\ UNCHANGED <<trIn, crIn, gtol, hasBudget, rankFam, tr, cr, k, needs, groupCtl, starTrt, starCtl, result>>
+Params == /\ pc = "params"
+          /\ trIn' \in TRs /\ crIn' \in CRs /\ gtol' \in GTols /\ hasBudget' \in Budgets /\ rankFam' \in RankFams
+          /\ tr' = trIn' /\ cr' = crIn'
+          /\ pc' = "start"
+          /\ UNCHANGED <<elig, k, needs, groupCtl, starTrt, starCtl, result>>
+SpecStaged == InitStaged /\ [][Pick \/ Params \/ Next]_vars
 \* ---------------------------------------------------------------- properties
 Feasible == {d \in (SUBSET Admitted) \X (SUBSET Admitted) : Legal(d[1], d[2]) /\ UserWithin(d[1], d[2]) /\ BudgetOK(d[1], d[2])}
 NoCrash == pc # "crash"                                        \* C09
